@@ -455,7 +455,7 @@ async fn run_scenario(sc: Value, sock: PathBuf, meaning: Map<String, Value>) -> 
     let mut sess_out = Map::new();
     sess_out.insert(
         "conn".to_owned(),
-        json!({"cid": "c1", "welcome": true, "closed": false, "open_inv": open_inv, "open_ret": open_ret, "log": []}),
+        json!({"cid": "c1", "welcome": true, "closed": false, "open_inv": open_inv, "open_ret": open_ret, "log": [], "switched": 1}),
     );
     let mut live: Vec<(u64, Vec<String>)> = vec![];
     for h in handles {
